@@ -152,6 +152,11 @@ def rec_pair(seed):
     elif rel == 'rescale':
         d2 = data * (rng.choice([0.125, 3.0, 8.0, 1000.0, 2.0 ** -50, 1e-17, 1e12]) if name in ('com', 'quadratic') else rng.choice([0.125, 3.0, 8.0, 1000.0]))
     else:
+        if rng.random() < 0.5:
+            # an unmasked non-finite pixel elsewhere in the cutout (excluded automatically) next to the user mask
+            free = np.argwhere(~mask)
+            r_, c_ = free[rng.randrange(len(free))]
+            data = data.copy(); data[r_, c_] = rng.choice([np.nan, np.inf])
         d2 = data.copy(); d2[mask] = rng.choice([-50.0, 1e5, 0.0])
     e1 = e2 = None
     if name in ('1dg', '2dg') and rel in ('maskedvalues', 'rescale') and rng.random() < 0.6:
